@@ -121,6 +121,8 @@ SPECTRA = {
     "mixed-sign-degenerate": lambda n: torch.tensor([-3.0, -1.0, -1.0, 0.0, 2.0, 2.0, 4.0, 7.0][:n]),
     "clustered": lambda n: torch.tensor([1.0, 1 + 1e-9, 1 + 2e-9, 2.0, 3.0, 4.0, 5.0, 5 + 1e-10][:n]),
     "separated": lambda n: torch.linspace(-2.0, 3.0, n),
+    # a degenerate eigenvalue AT ZERO: thresholds that are relative to |e| do not see it (seeded defect C06/2)
+    "degenerate-at-zero": lambda n: torch.tensor([0.0, 0.0, 0.0, 1.0, 2.0, 2.0, 3.0, 4.0][:n]),
 }
 
 
